@@ -534,6 +534,9 @@ func (c *Ctx) recoversFirstGo(cl *ssa.Function, d *ssa.Defer) (bool, string, str
 	return true, c.P.Pos(d.Pos()), "the goroutine installs its own recover first"
 }
 
+// verifiedDecoders: the json.Unmarshal calls whose producer/decoder type agreement R08.6 decides.
+var verifiedDecoders = map[*ssa.Call]bool{}
+
 func (c *Ctx) c08Codec() {
 	r := c.R
 	ax := c.fn("R08.6", "internal/executor.(*BlockExecutor).applyTx")
@@ -542,20 +545,48 @@ func (c *Ctx) c08Codec() {
 	}
 	// decoders: json.Unmarshal(ev.Data, &target) whose error panics
 	type decoder struct {
-		call   *ssa.Call
+		call   *ssa.Call // the site in applyTx: the Unmarshal itself or the call of the helper that decodes
 		target types.Type
 	}
 	var decs []decoder
-	for _, call := range core.Calls(ax) {
-		cl, ok := call.(*ssa.Call)
-		if !ok || core.CalleeName(call) != "encoding/json.Unmarshal" {
-			continue
-		}
+	targetOf := func(cl *ssa.Call) types.Type {
 		t := derefType(core.Strip(cl.Call.Args[1]).Type())
 		if mi, ok := cl.Call.Args[1].(*ssa.MakeInterface); ok {
 			t = derefType(mi.X.Type())
 		}
-		decs = append(decs, decoder{cl, t})
+		return t
+	}
+	verifiedDecoders = map[*ssa.Call]bool{}
+	for _, call := range core.Calls(ax) {
+		cl, ok := call.(*ssa.Call)
+		if !ok {
+			continue
+		}
+		if core.CalleeName(call) == "encoding/json.Unmarshal" {
+			decs = append(decs, decoder{cl, targetOf(cl)})
+			verifiedDecoders[cl] = true
+			continue
+		}
+		// a helper of the executor that decodes the event data it is handed
+		g := core.StaticCallee(call)
+		if g == nil || len(g.Blocks) == 0 || core.PkgOf(g) != "internal/executor" {
+			continue
+		}
+		passesData := false
+		for _, a := range cl.Call.Args {
+			if core.Mentions(a, fieldLoad("Event", "Data")) {
+				passesData = true
+			}
+		}
+		if !passesData {
+			continue
+		}
+		for _, gc := range core.Calls(g) {
+			if gcl, ok := gc.(*ssa.Call); ok && core.CalleeName(gc) == "encoding/json.Unmarshal" {
+				decs = append(decs, decoder{cl, targetOf(gcl)})
+				verifiedDecoders[gcl] = true
+			}
+		}
 	}
 	// event constants guarding each decoder: the case whose true edge reaches it before the next iteration
 	guard := map[*ssa.Call][]string{}
@@ -775,10 +806,25 @@ func (c *Ctx) c08Panics(recovering map[*ssa.Function]bool) {
 				}
 				n++
 				origin := "value"
+				var origins []string
+				decoderPanic := false
+				msgWhy := ""
 				for _, o := range core.Origins(p.X) {
 					if cc, _ := core.CallOf(o); cc != nil {
 						if ob := core.CalleeObj(cc); ob != nil {
 							origin = "error of " + ob.Name()
+							origins = append(origins, origin)
+							if verifiedDecoders[cc] {
+								decoderPanic = true
+							}
+							// a constructed error: its constant message identifies the panic wherever the code sits
+							if (ob.Name() == "Errorf" || ob.Name() == "New") && len(cc.Call.Args) > 0 {
+								if msg, ok := core.ConstString(cc.Call.Args[0]); ok {
+									if w, okM := classifiedByMessage[msg]; okM {
+										msgWhy = w
+									}
+								}
+							}
 						}
 					}
 				}
@@ -789,6 +835,26 @@ func (c *Ctx) c08Panics(recovering map[*ssa.Function]bool) {
 				key := top.Name() + ": panic(" + origin + ")"
 				seen[key]++
 				why, ok2 := classified[key]
+				if !ok2 && msgWhy != "" {
+					why, ok2 = msgWhy, true
+				}
+				if !ok2 && decoderPanic {
+					why, ok2 = "event codec: decided by R08.6 (producer type = decoder type)", true
+				}
+				if !ok2 && len(origins) > 1 {
+					// a shared error variable: classified when every possible origin is
+					all := true
+					for _, og := range origins {
+						_, a := classified[top.Name()+": panic("+og+")"]
+						_, b := classifiedByOrigin[og]
+						if !a && !b {
+							all = false
+						}
+					}
+					if all {
+						why, ok2 = "shared error variable; every origin classified ("+strings.Join(origins, ", ")+")", true
+					}
+				}
 				if !ok2 {
 					// errors of these repository functions are classified wherever the panic sits
 					// (moving the code into a helper does not change what the panic means)
@@ -963,4 +1029,11 @@ var classifiedByOrigin = map[string]string{
 	"error of PersistExecutionResult": "storage fault",
 	"error of loadChainMeta":          "storage fault",
 	"error of Retry":                  "storage fault: the block to replace cannot be read from the ledger",
+	"error of Rollback":               "storage fault: the ledger rollback failed",
+	"error of GetBlock":               "storage fault: a block of the local ledger cannot be read",
+}
+
+var classifiedByMessage = map[string]string{
+	"revision id %v cannod be reverted":                   "usage invariant: a snapshot id is reverted at most once, innermost first - decided by R08.8",
+	"append block with height %d to blockfile failed: %w": "storage fault: blockfile append",
 }
